@@ -199,11 +199,15 @@ class EventReplayer:
     ) -> WorkflowState:
         """Load WorkflowState from a snapshot."""
         state_dict = snapshot.state
+        start_time = state_dict.get("start_time")
+        end_time = state_dict.get("end_time")
         return WorkflowState(
             workflow_id=snapshot.entity_id,
             status=state_dict.get("status"),
             application=state_dict.get("application"),
             name=state_dict.get("name"),
+            start_time=datetime.fromisoformat(start_time) if start_time else None,
+            end_time=datetime.fromisoformat(end_time) if end_time else None,
             context=state_dict.get("context", {}),
             stages=state_dict.get("stages", {}),
             tasks=state_dict.get("tasks", {}),
